@@ -161,6 +161,30 @@ class C05(ProgramProperty):
                 last[st["m"]] = canon(v, st["m"])
                 if pending_reject and prev_snapshot and st["m"] in prev_snapshot and prev_snapshot[st["m"]] != last[st["m"]]:
                     fails.append(f"a rejected call changed {st['m']}")
+        # (3) which calls are rejected: the new record matches several existing records, or one without merge --
+        # "matches" meaning shares a CURIE prefix or URI prefix (canonical or synonym), up to case when
+        # case_sensitive=False -- judged on the records observed before the call
+        cur = None
+        for st, v in zip(steps, impl):
+            if st["op"] == "q" and st["c"] == 0 and st["m"] == "records" and isinstance(v, dict) and "r" in v:
+                cur = pyval(v)
+            elif st["op"] in ("add_record", "add_prefix") and st.get("c") == 0:
+                if cur is not None and not (isinstance(v, dict) and v.get("e") == "validation"):
+                    r = st["record"] if st["op"] == "add_record" else st
+                    np_ = [uncps(r["p"])] + [uncps(x) for x in r.get("ps", [])]
+                    nu_ = [uncps(r["u"])] + [uncps(x) for x in r.get("us", [])]
+                    norm = (lambda x: x) if st.get("cs", True) else (lambda x: x.casefold())
+                    hits = [e for e in cur
+                            if {norm(x) for x in np_} & {norm(x) for x in [e["p"]] + e["ps"]}
+                            or {norm(x) for x in nu_} & {norm(x) for x in [e["u"]] + e["us"]}]
+                    must_reject = len(hits) > 1 or (len(hits) == 1 and not st.get("merge", False))
+                    if must_reject and v is None:
+                        fails.append(f"{st['op']}(case_sensitive={st.get('cs', True)}, merge={st.get('merge', False)}) was accepted "
+                                     f"although the new record matches {len(hits)} existing record(s): {[e['p'] for e in hits]}")
+                    if not must_reject and v is not None:
+                        fails.append(f"{st['op']}(case_sensitive={st.get('cs', True)}, merge={st.get('merge', False)}) raised {v!r} "
+                                     f"although the new record matches {len(hits)} existing record(s)")
+                cur = None
         # fresh comparison
         by = {}
         for st, v in zip(steps, impl):
